@@ -9,6 +9,7 @@ package rty
 import (
 	"fmt"
 	"reflect"
+	"sort"
 	"strings"
 
 	"verifharness/internal/coqfmt"
@@ -333,4 +334,105 @@ func GenMapText(r *coqfmt.Rng, key, val func() string, allowBad bool) string {
 		}
 	}
 	return strings.Join(parts, coqfmt.Pick(r, []string{",", ",", ", "}))
+}
+
+// Printer prints types and values like TyTerm / ValTerm, except that the types
+// Leaf chooses are printed by it as opaque leaves (ok = false: not chosen).
+type Printer struct {
+	LeafTy  func(reflect.Type) (string, bool)
+	LeafVal func(reflect.Value) (string, bool)
+}
+
+func (p Printer) TyTerm(t reflect.Type) string {
+	if s, ok := p.LeafTy(t); ok {
+		return s
+	}
+	if t == tTUp || t == tTUv {
+		return TyTerm(t)
+	}
+	switch t.Kind() {
+	case reflect.Ptr:
+		return "(TPtr " + p.TyTerm(t.Elem()) + ")"
+	case reflect.Slice:
+		return "(TSlice " + p.TyTerm(t.Elem()) + " " + qname(t) + ")"
+	case reflect.Array:
+		return fmt.Sprintf("(TArray %d %s)", t.Len(), p.TyTerm(t.Elem()))
+	case reflect.Map:
+		return "(TMap " + p.TyTerm(t.Key()) + " " + p.TyTerm(t.Elem()) + " " + qname(t) + ")"
+	case reflect.Struct:
+		return "(TStruct " + p.FieldsTerm(t) + " " + qname(t) + ")"
+	}
+	return TyTerm(t)
+}
+
+func (p Printer) FieldsTerm(t reflect.Type) string {
+	var b strings.Builder
+	n := t.NumField()
+	for i := 0; i < n; i++ {
+		f := t.Field(i)
+		tags := Tags(f.Tag)
+		tp := make([]string, len(tags))
+		for j, kv := range tags {
+			tp[j] = "(" + coqfmt.Str(kv[0]) + ", " + coqfmt.Str(kv[1]) + ")"
+		}
+		fmt.Fprintf(&b, "(FCons %s %s %s %s ", coqfmt.Str(f.Name), coqfmt.List(tp), coqfmt.Bool(f.Anonymous), p.TyTerm(f.Type))
+	}
+	b.WriteString("FNil")
+	b.WriteString(strings.Repeat(")", n))
+	return b.String()
+}
+
+func (p Printer) ValTerm(v reflect.Value) string {
+	if s, ok := p.LeafVal(v); ok {
+		return s
+	}
+	t := v.Type()
+	if t == tTUp || t == tTUv {
+		return ValTerm(v)
+	}
+	switch t.Kind() {
+	case reflect.Ptr, reflect.Interface:
+		if v.IsNil() {
+			return "VNil"
+		}
+		return "(VPtr " + p.ValTerm(v.Elem()) + ")"
+	case reflect.Slice:
+		if v.IsNil() {
+			return "VNil"
+		}
+		fallthrough
+	case reflect.Array:
+		parts := make([]string, v.Len())
+		for i := range parts {
+			parts[i] = p.ValTerm(v.Index(i))
+		}
+		return "(VList " + coqfmt.List(parts) + ")"
+	case reflect.Map:
+		if v.IsNil() {
+			return "VNil"
+		}
+		type kv struct{ k, v string }
+		var kvs []kv
+		it := v.MapRange()
+		for it.Next() {
+			kvs = append(kvs, kv{p.ValTerm(it.Key()), p.ValTerm(it.Value())})
+		}
+		sort.Slice(kvs, func(i, j int) bool { return kvs[i].k < kvs[j].k })
+		parts := make([]string, len(kvs))
+		for i, e := range kvs {
+			parts[i] = "(" + e.k + ", " + e.v + ")"
+		}
+		return "(VMap " + coqfmt.List(parts) + ")"
+	case reflect.Struct:
+		return "(VStruct " + p.StructFieldsTerm(v) + ")"
+	}
+	return ValTerm(v)
+}
+
+func (p Printer) StructFieldsTerm(v reflect.Value) string {
+	parts := make([]string, v.NumField())
+	for i := range parts {
+		parts[i] = p.ValTerm(v.Field(i))
+	}
+	return coqfmt.List(parts)
 }
